@@ -364,6 +364,27 @@ def param_kinds(ctx):
         if A2 is not None and not np.array_equal(A2, 2.0 ** -50 * A1):
             ctx.fail('scale-invariance', 'scaling the integrand by 2^-50 does not scale the assembled matrix by 2^-50 (entries lost)',
                      dict(info, nonzeros=int((A1 != 0).sum()), nonzeros_scaled=int((A2 != 0).sum())))
+        # a DOF vector passed as keyword parameter is read at every call: assemble with w = x, update x IN PLACE, assemble
+        # again on the same long-lived basis -> must equal the assembly with a fresh copy of the new x and with its
+        # pre-interpolated field (all three form types)
+        xs = vec.copy()
+        delta = np.array([rng.randint(-3, 3) for _ in range(5)], dtype=float)
+        delta[rng.randrange(5)] += 1.0 if not delta.any() else 0.0
+        for fname, call in (('bilinear', lambda p: BilinearForm(S.py_form2(k2))._assemble(ub, vb, c=p)[1]),
+                            ('linear', lambda p: LinearForm(S.py_form1(k1))._assemble(ub, c=p)[1]),
+                            ('functional', lambda p: Functional(S.py_form0(k0)).elemental(ub, c=p))):
+            xs[:] = vec
+            first = _run(ctx, f'param-inplace:{fname}', f'{fname} form with a DOF-vector parameter', info, lambda: call(xs))
+            xs += delta                                     # in place: same array object
+            second = _run(ctx, f'param-inplace:{fname}', f'{fname} form with the updated DOF-vector parameter', info, lambda: call(xs))
+            fresh = call((vec + delta).copy())
+            viafield = call(ub.interpolate(vec + delta))
+            ctx.count(('param-inplace', fname, info), nontrivial=True)
+            if second is not None and not (np.array_equal(second, fresh) and np.array_equal(second, viafield)):
+                ctx.fail(f'param-inplace:{fname}', f'{fname} form: a DOF vector updated in place between two assemblies on the same basis '
+                         'enters the second assembly with stale values',
+                         dict(info, x_first=vec.tolist(), x_second=(vec + delta).tolist(), got=np.asarray(second).tolist(),
+                              expected=np.asarray(fresh).tolist(), first=None if first is None else np.asarray(first).tolist()))
         # Form.partial binds extra arguments of the integrand; decorator forms (Form()(f)) keep dtype / nthreads
         def f4(u, v, w, alpha=1, beta=0):
             return alpha * S.py_form2(k2)(u, v, w) + beta * u * v
